@@ -49,8 +49,14 @@ def B(r):
 build = B
 
 
+_SCACHE: Dict[str, Any] = {}
+
+
 def S(kind):
-    return st.deferred(lambda: STRAT[kind]())
+    """(memoised) strategy of recipes of ``kind``."""
+    if kind not in _SCACHE:
+        _SCACHE[kind] = st.deferred(lambda: STRAT[kind]())
+    return _SCACHE[kind]
 
 
 def _cirq():
@@ -2520,7 +2526,7 @@ def uncovered():
 def root_value(name=None):
     """{"name": registered name, "v": recipe} for a uniformly drawn covered name."""
     names = covered_names() if name is None else [name]
-    return st.sampled_from(names).flatmap(lambda n: st.sampled_from(ROOTS[n]).flatmap(lambda k: STRAT[k]().map(lambda r: {"name": n, "kind": k, "v": r})))
+    return st.sampled_from(names).flatmap(lambda n: st.sampled_from(ROOTS[n]).flatmap(lambda k: S(k).map(lambda r: {"name": n, "kind": k, "v": r})))
 
 
 def any_value():
